@@ -7,12 +7,14 @@ LEVEL = "model_checking"
 def run(tier, seed, limit=0):
     chk = engine.Check("C04", tier, seed)
     scs = fam_list.family_fixed(tier, seed) + fam_list.family_randsz(tier, seed) + fam_list.family_objlist(tier, seed)
+    scs += fam_list.family_objlist_randsz(tier, seed)
     if limit:
         scs = scs[:limit]
     chk.run_scenarios(scs, "Trace_VscRand")
     return chk.finish(LEVEL, "fixed-size lists (sizes 0..3): foreach over element / index / both, index arithmetic under a guard, sum, "
                       "unique, membership, literal indices, with exhaustive truth tables over (scalars, elements) before and after "
                       "append/extend/assign/clear/setitem; random-size lists with bounded size: every size pinned in turn (SolveFailure "
-                      "iff no (size, elements) candidate exists, decided by TLC), list edits after calls; foreach over object lists; "
+                      "iff no (size, elements) candidate exists, decided by TLC), list edits after calls; foreach over object lists; random-size "
+                      "object lists (populated by the user, size pinned down and up again: bodies and views on the exposed prefix); "
                       "every call logs len/size/index/iteration views which must describe one sequence",
                       ["TLC 1.8; Expr.tla list semantics; world->DSL compiler"])
